@@ -16,6 +16,7 @@ from .. import manifests, runner, seeds, space, tlc, tracecheck
 from ..common import Check
 
 LEVEL = "model_checking"
+RULE = ('cases = Deps.tla manifest states x codemods needing a package x manifest texts, run once and twice; every case is non-trivial (a dependency is wanted); distinct = distinct (state history, codemod, manifest text)')
 
 CODEMODS = [
     {"id": "pixee:python/use-defusedxml", "pkg": "defusedxml", "alt": "DefusedXML", "src": space.PROGRAMS["xml"]},
